@@ -425,7 +425,29 @@ def run(ctx):
     rn = repo.func('nbdime.utils:read_notebook')
     hs = empty_file_fallback_sites(rn)
     if not hs:
-        raise AnalysisError('utils.read_notebook: no NotJSONError handler found')
+        # emptiness decided up front instead of after a failed parse: by what?
+        g_ = CFG(rn)
+        subs = [r for r in walk_no_nested(rn) if isinstance(r, ast.Return) and r.value is not None and
+                (isinstance(r.value, ast.Dict) and not r.value.keys or (isinstance(r.value, ast.Call) and (dotted(r.value.func) or '').endswith('new_notebook')))]
+        judged = False
+        for r in subs:
+            names = set()
+            for t, pol in cond_guards(g_, r):
+                for c in ast.walk(t):
+                    if isinstance(c, ast.Call):
+                        names.add(dotted(c.func) or '')
+                        for tt in ctx.cg.resolve(c.func, rn):
+                            if tt[0] == 'func' and tt[1] in repo.functions:
+                                names |= {dotted(x.func) or '' for x in ast.walk(repo.functions[tt[1]]) if isinstance(x, ast.Call)}
+            by_size = sorted(n for n in names if n.split('.')[-1] in ('getsize', 'stat', 'fstat', 'lstat'))
+            if by_size:
+                judged = True
+                ctx.inst('R08.7', 'nbdime.utils:read_notebook', 'substitute %s guarded by %s' % (repo.norm(r), by_size), False,
+                         'whether the input is empty is decided from the file SIZE (%s): a pipe, /dev/fd/N or procfs file has size 0 and content -- such a base is never read and '
+                         'is replaced by an empty notebook, the merge runs as a double insertion and exits 0' % ', '.join(by_size), r)
+        if not judged:
+            raise AnalysisError('utils.read_notebook: no NotJSONError handler found')
+        hs = []
     for h, sites in hs:
         if not sites:
             always = bool(h.body) and isinstance(h.body[-1], ast.Raise)
